@@ -491,5 +491,6 @@ func TestCheck(t *testing.T) {
 	r.Set("decision_points", pts.Load())
 	r.Set("max_depth", maxDepth.Load())
 	r.Set("divergent_branches", div.Load())
+	runDistributor(t, r)
 	r.Finish()
 }
